@@ -1,6 +1,7 @@
 package main
 
 import (
+	"go/types"
 	"fmt"
 	"go/constant"
 	"go/token"
@@ -173,5 +174,355 @@ func rejectSpecs() []rejectSpec {
 		{fn: "codec.IsValidRID", reject: append(append([]rune{}, asciiBad...), '*', '>'), accept: []rune{'a', 'Z', '0', '_', '-', '{', '}', '~', '!'}},
 		{fn: "codec.IsValidRIDPart", reject: append(append([]rune{}, asciiBad...), '*', '>', '.', '?'), accept: []rune{'a', 'Z', '0', '_', '-', '~', '!'}},
 		{fn: "rescache.ParseResourcePattern", reject: append(append([]rune{}, asciiBad...), '?'), accept: []rune{'a', 'Z', '0', '_'}},
+	}
+}
+
+// ---------------------------------------------------------------------------
+// TABLE/errorStatus (C17.1): error code -> HTTP status, by constant
+// propagation with the code fixed, one case per code.
+
+var errorStatusTable = map[string]int64{
+	"system.notFound":           404,
+	"system.methodNotFound":     404,
+	"system.timeout":            404,
+	"system.accessDenied":       401,
+	"system.forbidden":          403,
+	"system.methodNotAllowed":   405,
+	"system.subjectTooLong":     414,
+	"system.internalError":      500,
+	"system.serviceUnavailable": 503,
+	// anything else: 400
+	"system.invalidParams":  400,
+	"system.invalidRequest": 400,
+	"system.badRequest":     400,
+	"system.noSubscription": 400,
+	"some.custom.error":     400,
+	"":                      400,
+}
+
+func ruleErrorStatus(c *Ctx) {
+	p := c.P
+	fn := p.Fn("server.errorStatus")
+	if fn == nil {
+		c.undecided("server.errorStatus", "anchor", "-", "not found")
+		return
+	}
+	fCode := p.Field("reserr.Error.Code")
+	for _, code := range sortedKeys(strKeys(errorStatusTable)) {
+		want := errorStatusTable[code]
+		c.inst(1)
+		sp := &Spec{}
+		sp.Eval = func(t *Tracer, fr *Frame, cond ssa.Value) (bool, bool) {
+			b, ok := cond.(*ssa.BinOp)
+			if !ok || (b.Op != token.EQL && b.Op != token.NEQ) {
+				return false, false
+			}
+			s, isS := constString(b.Y)
+			x := b.X
+			if !isS {
+				s, isS = constString(b.X)
+				x = b.Y
+			}
+			if !isS {
+				return false, false
+			}
+			if f, _ := fieldLoad(t.Resolve(fr, x).V); f != fCode {
+				return false, false
+			}
+			return (s == code) == (b.Op == token.EQL), true
+		}
+		var got []string
+		sp.Classify = func(t *Tracer, fr *Frame, in ssa.Instruction) []Ev {
+			if r, ok := in.(*ssa.Return); ok && fr == t.RootFr && len(r.Results) == 2 {
+				if k, ok := constInt(t.Resolve(fr, r.Results[1]).V); ok {
+					return []Ev{{Kind: fmt.Sprintf("status=%d", k)}}
+				}
+				return []Ev{{Kind: "status=?"}}
+			}
+			return nil
+		}
+		tr := runTrace(p, fn, sp)
+		ok := len(tr.Paths) > 0
+		for _, path := range tr.Paths {
+			for _, e := range path {
+				if strings.HasPrefix(e.Kind, "status=") {
+					got = append(got, e.Kind[7:])
+					if e.Kind != fmt.Sprintf("status=%d", want) {
+						ok = false
+					}
+				}
+			}
+		}
+		c.check(ok, "server.errorStatus", fmt.Sprintf("code %q maps to %d", code, want), p.Pos(fn.Pos()),
+			fmt.Sprintf("%d paths, all return %d", len(tr.Paths), want), fmt.Sprintf("code %q maps to %s, the property says %d", code, strings.Join(got, "/"), want))
+	}
+}
+
+func strKeys(m map[string]int64) map[string]bool {
+	o := map[string]bool{}
+	for k := range m {
+		o[k] = true
+	}
+	return o
+}
+
+// ---------------------------------------------------------------------------
+// TABLE/status-interval (C17.2): meta status honoured exactly within 300..599
+
+func ruleStatusInterval(c *Ctx) {
+	p := c.P
+	fStatus := p.Field("codec.Meta.Status")
+	for _, spec := range []struct {
+		fn      string
+		wantNil bool
+	}{{"(*codec.Meta).IsDirectResponseStatus", false}, {"(*codec.Meta).IsValidStatus", true}} {
+		fn := p.Fn(spec.fn)
+		if fn == nil {
+			c.undecided(spec.fn, "anchor", "-", "not found")
+			continue
+		}
+		c.inst(1)
+		bad := ""
+		for _, s := range []int64{-1, 0, 100, 199, 200, 204, 299, 300, 301, 399, 400, 404, 500, 599, 600, 601, 1000, 65536} {
+			sp := &Spec{}
+			sp.Eval = func(t *Tracer, fr *Frame, cond ssa.Value) (bool, bool) {
+				if x, nonNil, ok := nilTestV(cond); ok {
+					// m != nil and m.Status != nil: both non-nil in this case
+					_ = x
+					return nonNil, true
+				}
+				x, op, k, ok := cmpConst(cond)
+				if !ok {
+					return false, false
+				}
+				// x must be *m.Status
+				r := t.Resolve(fr, x).V
+				if u, isU := r.(*ssa.UnOp); isU && u.Op == token.MUL {
+					if f, _ := fieldLoad(u.X); f == fStatus {
+						return evalIntCmp(op, s, k)
+					}
+				}
+				return false, false
+			}
+			sp.Classify = func(t *Tracer, fr *Frame, in ssa.Instruction) []Ev {
+				if r, ok := in.(*ssa.Return); ok && fr == t.RootFr {
+					rv := t.Resolve(fr, r.Results[0])
+					if b, ok := constBool(rv.V); ok {
+						return []Ev{{Kind: fmt.Sprintf("ret=%v", b)}}
+					}
+					if b, ok := sp.Eval(t, rv.Fr, rv.V); ok {
+						return []Ev{{Kind: fmt.Sprintf("ret=%v", b)}}
+					}
+					return []Ev{{Kind: "ret=?"}}
+				}
+				return nil
+			}
+			tr := runTrace(p, fn, sp)
+			want := s >= 300 && s <= 599
+			for _, path := range tr.Paths {
+				if !hasKind(path, fmt.Sprintf("ret=%v", want)) {
+					bad = fmt.Sprintf("status %d: returns %v, the property honours a meta status exactly within 300-599", s, kinds(path))
+				}
+			}
+			if len(tr.Paths) == 0 {
+				bad = "no path"
+			}
+		}
+		// nil meta / nil status
+		{
+			sp := &Spec{}
+			sp.Eval = func(t *Tracer, fr *Frame, cond ssa.Value) (bool, bool) {
+				if _, nonNil, ok := nilTestV(cond); ok {
+					// first test (m != nil) true, second (Status != nil) false: handled by enumerating both
+					_ = nonNil
+					return false, false
+				}
+				return false, false
+			}
+			sp.Classify = func(t *Tracer, fr *Frame, in ssa.Instruction) []Ev {
+				if r, ok := in.(*ssa.Return); ok && fr == t.RootFr {
+					if b, ok := constBool(t.Resolve(fr, r.Results[0]).V); ok {
+						return []Ev{{Kind: fmt.Sprintf("ret=%v", b)}}
+					}
+				}
+				return nil
+			}
+			sp.Branch = func(t *Tracer, fr *Frame, i *ssa.If, dir bool) []Ev {
+				if _, nonNil, ok := nilTest(i, dir); ok && !nonNil {
+					return []Ev{{Kind: "nil"}}
+				}
+				return nil
+			}
+			tr := runTrace(p, fn, sp)
+			for _, path := range tr.Paths {
+				if hasKind(path, "nil") && !hasKind(path, fmt.Sprintf("ret=%v", spec.wantNil)) {
+					bad = fmt.Sprintf("nil meta / nil status must yield %v: %v", spec.wantNil, kinds(path))
+				}
+			}
+		}
+		c.check(bad == "", spec.fn, "true exactly for a status within 300..599", p.Pos(fn.Pos()), "18 status values and the nil cases evaluated by constant propagation", bad)
+	}
+}
+
+// nilTestV decodes `X != nil` / `X == nil` on a value; nonNil is the truth of
+// the condition when X is non-nil.
+func nilTestV(cond ssa.Value) (ssa.Value, bool, bool) {
+	b, ok := cond.(*ssa.BinOp)
+	if !ok || (b.Op != token.EQL && b.Op != token.NEQ) {
+		return nil, false, false
+	}
+	switch {
+	case isNilConst(b.Y):
+		return b.X, b.Op == token.NEQ, true
+	case isNilConst(b.X):
+		return b.Y, b.Op == token.NEQ, true
+	}
+	return nil, false, false
+}
+
+// ---------------------------------------------------------------------------
+// TABLE/protected (C17.3): MergeHeader never copies a protected key, appends
+// Set-Cookie and replaces everything else.
+
+var protectedHeaders = []string{"Content-Type", "Access-Control-Allow-Origin", "Access-Control-Allow-Credentials", "Sec-Websocket-Extensions", "Sec-Websocket-Protocol"}
+
+func ruleProtectedHeaders(c *Ctx) {
+	p := c.P
+	fn := p.Fn("codec.MergeHeader")
+	if fn == nil {
+		c.undecided("codec.MergeHeader", "anchor", "-", "not found")
+		return
+	}
+	run := func(key string) (updates, appends, iters int) {
+		sp := &Spec{}
+		isKey := func(v ssa.Value) bool {
+			if e, ok := v.(*ssa.Extract); ok && e.Index == 1 {
+				if nx, ok := e.Tuple.(*ssa.Next); ok && !nx.IsString {
+					return true
+				}
+			}
+			return false
+		}
+		sp.Eval = func(t *Tracer, fr *Frame, cond ssa.Value) (bool, bool) {
+			b, ok := cond.(*ssa.BinOp)
+			if !ok || (b.Op != token.EQL && b.Op != token.NEQ) {
+				return false, false
+			}
+			s, isS := constString(b.Y)
+			if !isS || !isKey(t.Resolve(fr, b.X).V) {
+				return false, false
+			}
+			return (s == key) == (b.Op == token.EQL), true
+		}
+		sp.Classify = func(t *Tracer, fr *Frame, in ssa.Instruction) []Ev {
+			if mu, ok := in.(*ssa.MapUpdate); ok {
+				if call, ok := mu.Value.(*ssa.Call); ok {
+					if b, ok := call.Call.Value.(*ssa.Builtin); ok && b.Name() == "append" {
+						return []Ev{{Kind: "append"}}
+					}
+				}
+				return []Ev{{Kind: "replace"}}
+			}
+			return nil
+		}
+		sp.Branch = func(t *Tracer, fr *Frame, i *ssa.If, dir bool) []Ev {
+			if e, ok := i.Cond.(*ssa.Extract); ok && e.Index == 0 {
+				if _, ok := e.Tuple.(*ssa.Next); ok && dir {
+					return []Ev{{Kind: "iter"}}
+				}
+			}
+			return nil
+		}
+		tr := runTrace(p, fn, sp)
+		for _, path := range tr.Paths {
+			if !hasKind(path, "iter") {
+				continue
+			}
+			iters++
+			updates += countKind(path, "replace")
+			appends += countKind(path, "append")
+		}
+		return
+	}
+	for _, k := range protectedHeaders {
+		c.inst(1)
+		u, a, n := run(k)
+		c.check(u+a == 0 && n > 0, "codec.MergeHeader", "protected header "+k+" is never merged", p.Pos(fn.Pos()), "no map update on any path with this key", fmt.Sprintf("key %q is copied into the response header (%d replace, %d append)", k, u, a))
+		if textprotoCanonical(k) != k {
+			c.viol("codec.MergeHeader", "protected header "+k+" is canonical", "-", "not a fixed point of CanonicalMIMEHeaderKey")
+		}
+	}
+	c.inst(2)
+	u, a, n := run("Set-Cookie")
+	c.check(u == 0 && a == n && n > 0, "codec.MergeHeader", "Set-Cookie values accumulate", p.Pos(fn.Pos()), "append form on every path", fmt.Sprintf("Set-Cookie: %d replace, %d append over %d paths", u, a, n))
+	u, a, n = run("X-Other")
+	c.check(a == 0 && u == n && n > 0, "codec.MergeHeader", "other headers replace", p.Pos(fn.Pos()), "replace form on every path", fmt.Sprintf("X-Other: %d replace, %d append over %d paths", u, a, n))
+}
+
+// textprotoCanonical mirrors textproto.CanonicalMIMEHeaderKey for plain
+// token keys (letters, digits, '-').
+func textprotoCanonical(s string) string {
+	b := []byte(s)
+	upper := true
+	for i, ch := range b {
+		if upper && 'a' <= ch && ch <= 'z' {
+			b[i] = ch - 32
+		} else if !upper && 'A' <= ch && ch <= 'Z' {
+			b[i] = ch + 32
+		}
+		upper = ch == '-'
+	}
+	return string(b)
+}
+
+// ---------------------------------------------------------------------------
+// DOM/canonicalize (C17.3): every meta a decoder hands out was canonicalised
+
+func ruleCanonicalize(c *Ctx) {
+	p := c.P
+	canon := p.Method("codec.Meta.Canonicalize")
+	metaT := p.Named("codec.Meta")
+	if canon == nil || metaT == nil {
+		c.undecided("codec.Meta.Canonicalize", "anchor", "-", "not found")
+		return
+	}
+	for _, fn := range p.Repo {
+		if fn.Pkg == nil || fn.Pkg.Pkg.Name() != "codec" || fn.Parent() != nil {
+			continue
+		}
+		res := fn.Signature.Results()
+		mi := -1
+		for i := 0; i < res.Len(); i++ {
+			if pt, ok := res.At(i).Type().(*types.Pointer); ok {
+				if pt.Elem() == metaT.Obj().Type() {
+					mi = i
+				}
+			}
+		}
+		if mi < 0 || fn.Name() == "Merge" {
+			continue
+		}
+		c.inst(1)
+		sp := &Spec{}
+		sp.Classify = func(t *Tracer, fr *Frame, in ssa.Instruction) []Ev {
+			if _, ok := isCallTo(in, canon); ok {
+				return []Ev{{Kind: "canon", Stop: true}}
+			}
+			if r, ok := in.(*ssa.Return); ok && fr == t.RootFr {
+				if isNilConst(t.Resolve(fr, r.Results[mi]).V) {
+					return []Ev{{Kind: "return:nometa"}}
+				}
+				return []Ev{{Kind: "return:meta"}}
+			}
+			return nil
+		}
+		tr := runTrace(p, fn, sp)
+		bad := ""
+		for _, path := range tr.Paths {
+			if hasKind(path, "return:meta") && !hasKind(path, "canon") {
+				bad = "a meta object is returned without Canonicalize(): header keys in the service's own spelling bypass the protected-header filter: " + tr.FmtPath(path)
+			}
+		}
+		c.check(bad == "", fnName(fn), "every returned meta passed Canonicalize", p.Pos(fn.Pos()), fmt.Sprintf("%d paths", len(tr.Paths)), bad)
 	}
 }
